@@ -43,6 +43,11 @@ theorem sim_throw {P : α → Prop} (e : Err) : Sim (V := V) n P (M.throw e) (M.
   intro st hinv
   exact ⟨hinv, rfl, fun y hy => by cases hy⟩
 
+theorem sim_ofExcept {P : α → Prop} (r : Except Err α) (h : ∀ x, r = .ok x → P x) :
+    Sim (V := V) n P (M.ofExcept r) (M.ofExcept r) := by
+  intro st hinv
+  exact ⟨hinv, rfl, fun y hy => h y hy⟩
+
 theorem sim_weaken {P Q : α → Prop} {m : M (St V) α} {ma : M (ATab V) α}
     (h : Sim n P m ma) (hpq : ∀ x, P x → Q x) : Sim n Q m ma := by
   intro st hinv
@@ -88,7 +93,11 @@ theorem sim_tryFinally {P : α → Prop} {m : M (St V) α} {ma : M (ATab V) α}
     | mk r2 st2 =>
       rw [hf] at i2
       cases r2 with
-      | error e => exact ⟨i2, rfl, fun x hx => by cases hx⟩
+      | error e =>
+        refine ⟨i2, rfl, fun x hx => ?_⟩
+        cases r with
+        | ok y => cases hx
+        | error e' => cases e' <;> cases hx
       | ok u => exact ⟨i2, rfl, fun x hx => p1 x hx⟩
 
 theorem sim_catchIndex {P : α → Prop} {m : M (St V) α} {ma : M (ATab V) α} (d : α)
